@@ -253,7 +253,7 @@ def audit(chk, f):
             ws = [w_ for w_ in wrap_sites(o) if w_[1] == name]
             if ws:
                 bad.append('%s may wrap in builds without overflow checks' % ws[0][0])
-            if o.kind != 'ret':
+            if o.kind not in ('ret', 'panic'):
                 continue
             hw = set()
             for e in o.st.events:
@@ -284,9 +284,13 @@ def audit(chk, f):
                 if isinstance(v, (Struct, Enum)):
                     for y in v.fields:
                         visit(y)
-            visit(o.val)
+            if o.kind == 'ret':
+                visit(o.val)
+            # what is left behind a `&mut` argument - on panicking paths too: the caller's object outlives an unwound call
             for loc in refs:
                 visit(o.st.mem.get(loc))
+            if o.kind != 'ret':
+                continue
             # pages and frames: the start address has the low log2(SIZE) bits clear (the size is read off the function's types)
             rt = I.subst_ty(f['locals'][0], sub)
             tvisit(o, o.val, rt)
